@@ -284,6 +284,12 @@ func (st *State) publish(v Val, destRoot string) {
 	for _, t := range v.C {
 		if st.private[t] {
 			delete(st.private, t)
+			// interior objects (embedded structs, embedded arrays and their elements) are shared with their owner
+			for k := range st.private {
+				if strings.Contains(k, " "+t+")") || strings.Contains(k, " "+t+" ") {
+					delete(st.private, k)
+				}
+			}
 		}
 	}
 }
